@@ -27,7 +27,7 @@ def find_bound_check(db, f):
             if "var" in found and "A" not in found:
                 dom = [trange(found["t"])]
                 env2 = {k: v for k, v in env.items() if k != found["var"]}
-                T = Evaluator({found["var"]}, env2).sat(cond, dom)
+                T = Evaluator({found["var"]}, env2, db=db).sat(cond, dom)
                 found["A"] = T if positive else complement(T, dom)
 
         def branch(self, st):
